@@ -279,3 +279,16 @@ Proof.
 Qed.
 
 End PipeR.
+
+(* non-vacuity (stated in Properties_C06.v) *)
+Lemma pipe_nonvacuous :
+  split_lines [97; 10; 98; 10; 108; 97; 115; 116]%N = [[97]; [98]; [108; 97; 115; 116]]%N /\
+  split_lines [111; 110; 108; 121]%N = [[111; 110; 108; 121]]%N /\ split_lines [] = [] /\ split_lines [97; 10]%N = [[97]]%N /\
+  pipe_feed [1; 2; 3; 4; 5]%N 0 [WAcc 3; WAcc 9] = ([1; 2; 3; 4; 5]%N, 5%nat, true) /\
+  pipe_feed_noadv [1; 2; 3; 4; 5]%N 0 [WAcc 3; WAcc 9] = ([1; 2; 3; 1; 2]%N, 5%nat, true) /\
+  (let s := ex_main_x (fun _ => false) (fun _ _ _ => None) (fun _ _ => Some [88; 43; 89]%N) (fun _ => Some [120; 10; 121]%N)
+              (fun _ => None) [102]%N 100 100
+              (init_st [76; 49; 10; 76; 50; 10; 76; 51; 10; 76; 52; 10]%N
+                 [[50; 44; 51; 121; 32; 97]; [114; 120; 32; 97; 32; 106]; [36; 112; 117; 32; 97]; [49; 114; 32; 33; 99]; [50; 44; 51; 33; 106]]%N true) in
+   texts s = [[76; 49]; [88; 43; 89]; [76; 50]; [76; 51]; [76; 52]; [88; 43; 89]]%N /\ flags s = F_EOF /\ xrow s = 2).
+Proof. vm_compute. repeat split; reflexivity. Qed.
